@@ -18,6 +18,26 @@ CLAIMED = {
    note='Decision-tree translator (gen/dtree.py) and its atom map are trusted; the atoms are interpreted by Model.Eval.missing_env.',
    technique='Coq proof by evaluation of the generated decision tree + differential correspondence',
    design='6 C03'),
+ 'C04': dict(
+   text='Proof (Coq): role_check m tgt creds = Ok true iff X (m filled from the target; substitution on well-formed %(key)s templates proved equal to hole filling) equals a role ignoring case (str.lower per code point from the table regenerated from the running interpreter); missing target key or missing roles entry denies. Differential: generated templates/targets/credentials over a mixed ASCII/Latin/Greek/Cyrillic alphabet plus every single-character name of the lower-casing table, extracted spec_role vs Enforcer.enforce, model vs implementation. Partial: context-sensitive lower-casing (final sigma) is outside the model.',
+   note='str % mapping is modelled for %(key)s and %% only (anything else is flagged out-of-model); str.lower table regenerated from the interpreter each run.',
+   technique='Coq proof (iff characterisation, template round-trip) + generated handler/Unicode tables + differential correspondence',
+   design='6 C04'),
+ 'C05': dict(
+   text='Proof (Coq): the credential walk returns true iff some value reached by following the dotted path (lists fan out one level per step) prints as the right side; literal left sides compare with the literal string form; a missing key or a path running into a non-container denies and never raises (F4 repair re-proved against the generated except clause); the harness oracle (collect-all reading) is proved equivalent to the relational spec. Differential: generated checks with literal/path left sides against nested random credentials plus a small-scope enumeration.',
+   note='ast.literal_eval is an oracle (its outcome per left side is computed by the harness and handed to the model); str() of containers modelled for plain strings only.',
+   technique='Coq proof (induction on the path against an inductive reach relation) + generated handler sets + differential correspondence',
+   design='6 C05'),
+ 'C06': dict(
+   text='Proof (Coq): a rule:NAME leaf evaluates exactly as the definition lookup resolves it to (default-rule fallback included) under the same current rule; inlining references never changes an outcome at any depth; undefined references deny like unknown policies; rank-acyclic stores never run out of fuel and more fuel never changes an answer; every recording leaf reached receives the enforced policy name (instrumented evaluator proved to agree with the plain one). Differential: acyclic rule sets with alias chains/diamonds/undefined references and recording 3-/4-argument custom checks: decisions and the sequence of recorded calls, inlining metamorphic relation.',
+   note='The alias theorems carry the hypothesis that the referenced definition raises nothing RuleCheck.__call__ would swallow (its except KeyError wraps the nested evaluation); inspect.getfullargspec arity adaptation is modelled by a per-class flag.',
+   technique='Coq proof (fuel monotonicity/adequacy, structural induction for inlining, trace invariant) + differential correspondence',
+   design='6 C06'),
+ 'C13': dict(
+   text='Proof (Coq): the undefined-reference walk is exact w.r.t. "some reference anywhere (also under not) is undefined"; the path-sensitive cycle walk with per-branch copies of seen and |rules|+2 fuel is exact w.r.t. "a reference reaches a reference cycle" in the rule graph (diamonds are not cycles); a store on which check_rules reports nothing evaluates every stored rule without running out of fuel. Which child attributes the walkers descend into is read off the source each run (F5 repair). Differential: rule sets over 3-4 names from 12 body shapes and random graphs over <= 6 names vs model vs an independent graph analysis; clean sets evaluated under a recursion limit.',
+   note='The oslopolicy-validator return code (missing file, unknown names, unparseable rule) is checked differentially only.',
+   technique='Coq proof (inductive hit relation mirroring the DFS, room measure for fuel, graph-theoretic reading) + generated walker facts + differential correspondence',
+   design='6 C13'),
 }
 REASON_PENDING = 'check not built yet in this session (model/theorems in progress); not claimed'
 def main():
